@@ -17,7 +17,7 @@ pub enum DOp {
     Tune(i32, i32, i32, i32),
     Prime(i32, i32),
     SetDict(usize),
-    /// 0: small header, 1: 600-byte name, 2: NULL header
+    /// 0: small header, 1: 600-byte name, 2: NULL header, 3: 700-byte extra field, 4: 600-byte comment
     SetHeader(u8),
     Pending,
     Bound(usize),
@@ -99,7 +99,8 @@ impl OpEnv {
 
 /// Execute `ops` after deflateInit2(cfg...) (raw argument values, possibly illegal). `probe`: H3 invariants (Rs only).
 #[allow(clippy::too_many_arguments)]
-/// `strict_pre`: skip calls whose documented precondition does not hold (deflatePrime after the first deflate call).
+/// `strict_pre`: skip calls whose documented precondition does not hold (deflatePrime / deflateSetHeader after the
+/// first deflate call).
 pub fn run_dops<Zx: Z>(level: i32, method: i32, wbits_arg: i32, mem_level: i32, strategy: i32, ops: &[DOp], env: &OpEnv, guarded: bool, probe: bool, tail_room: usize, strict_pre: bool, rec: Option<&mut Case>) -> Result<DRun, String> {
     run_dops_ex::<Zx>(level, method, wbits_arg, mem_level, strategy, ops, env, guarded, probe, tail_room, strict_pre, false, rec)
 }
@@ -278,12 +279,22 @@ pub fn run_dops_full<Zx: Z>(level: i32, method: i32, wbits_arg: i32, mem_level: 
                     let p = env.aux.put(&env.dict[..n], true);
                     o.ret = Zx::deflateSetDictionary(s.p(), p, n as u32) as i64;
                 }
+                DOp::SetHeader(_) if strict_pre && deflate_called => {
+                    // zlib.h: deflateSetHeader "may be called after deflateInit2() or deflateReset() and before the
+                    // first call of deflate()"; replacing the header while a field is partly written makes zlib
+                    // itself read past the new field
+                    o.ret = 99;
+                }
                 DOp::SetHeader(k) => {
                     if k == 2 {
                         o.ret = Zx::deflateSetHeader(s.p(), std::ptr::null_mut()) as i64;
                     } else {
                         let f = if k == 0 {
                             GzFields { text: true, mtime: 9, os: 3, name: Some(b"a.txt".to_vec()), hcrc: true, ..Default::default() }
+                        } else if k == 3 {
+                            GzFields { os: 3, extra: Some(lcg_bytes(5, 700)), name: Some(b"n".to_vec()), hcrc: true, ..Default::default() }
+                        } else if k == 4 {
+                            GzFields { os: 3, extra: Some(vec![1, 2]), comment: Some(lcg_bytes(6, 600).into_iter().map(|b| b | 1).collect()), ..Default::default() }
                         } else {
                             GzFields { os: 3, name: Some(lcg_bytes(3, 600).into_iter().map(|b| b | 1).collect()), comment: Some(vec![b'c'; 10]), extra: Some(vec![7; 20]), ..Default::default() }
                         };
